@@ -241,13 +241,13 @@ def _universe_for(shard):
 def _menu_kwargs(shard):
     if shard["kind"] == "model":
         if shard.get("thorough"):
-            return dict(accumulate=True, clones=True, ctx=True)
+            return dict(accumulate=True, clones=True, ctx=True, tv_reads=("rt", "model"))
         return dict(accumulate=False, clones=True, modes=(None, "REF"), masks=[[1, 0], [0, 1]], ctx=False,
-                    reads=["model", "nll_attach_ind", "nll_attach", "nll_regul_ind_sum_ind", "rt", "n_obs", "n_obs_per_ft"])
+                    reads=["model", "nll_attach_ind", "nll_attach", "nll_regul_ind_sum_ind", "rt", "n_obs", "n_obs_per_ft"], tv_reads=("rt",))
     if shard["kind"] == "wtoy":
-        return dict(accumulate=False, puts=False, clones=shard["depth"] is None, ctx=False)
+        return dict(accumulate=False, puts=False, clones=shard["depth"] is None, ctx=False, aliasing=True, tv_reads=("w",))
     return dict(accumulate=shard.get("accumulate", False), puts=shard.get("puts", True), clones=True,
-                ctx=shard.get("depth") is not None)
+                ctx=shard.get("depth") is not None, aliasing=True)
 
 
 def run_shard(shard):
